@@ -123,7 +123,8 @@ def expected_columns(fc):
         pass
     if fmt.name.startswith("vcf"):
         if fmt.with_info_header:
-            from .models.formats import VCF_INFO_DEFS
+            from .models.formats import info_defs
+            VCF_INFO_DEFS = info_defs(fc.get("style"))
             out = []
             for r in recs:
                 info = r["values"]["info"]
